@@ -187,9 +187,11 @@ def _e1(prop, title, owns, nontriv, q_checks, t_checks, extra_assume=()):
                      "Close is called with no transaction open; after Close only View/Update are called"] + list(extra_assume),
         level_text=title,
         level_note="trusted: the reference model (model.go), the interpreter's bookkeeping, the gate controller (steers only; verdicts never read hook state)",
-        quick=[dict(pkg="dbsm", test="Test" + prop, shards=16, checks=q_checks, timeout=400)],
+        quick=[dict(pkg="dbsm", test="Test" + prop, shards=16, checks=q_checks, timeout=400)] + (
+            [dict(pkg="conc", test="Test" + prop + "Conc", race=True, shards=8, checks=8, timeout=400, gomaxprocs=4)] if prop in ("C05", "C06", "C07") else []),
         thorough=[dict(pkg="dbsm", test="Test" + prop, shards=16, checks=t_checks, timeout=3000),
-                  dict(pkg="dbsm", test="Test" + prop, shards=16, checks=max(20, t_checks // 5), timeout=3000, env={"VERIF_FREE": "1"}, replay_tries=30)],
+                  dict(pkg="dbsm", test="Test" + prop, shards=16, checks=max(20, t_checks // 5), timeout=3000, env={"VERIF_FREE": "1"}, replay_tries=30)] + (
+            [dict(pkg="conc", test="Test" + prop + "Conc", race=True, shards=16, checks=250, timeout=3000, gomaxprocs=4)] if prop in ("C05", "C06", "C07") else []),
     )
 
 CHECKS["C01"] = _e1("C01", "Generated-history search against an exact model: every read in a fresh transaction must return the latest committed write, at whatever gate the flusher stands.",
@@ -247,7 +249,62 @@ CHECKS["C14"] = _e2("C14", "Crash injection plus loss of unsynced tails: every i
     "Judged: the C03 oracles (a)(b)(c)(d) on images in which files with bytes written after their last completed fsync were truncated: to the synced length (all such files at once), and per file to synced+{0,1,7,8,9}, written-{1,2,8,9}, the middle and 8 drawn positions (thorough: every length when the tail is <= 256 bytes). A failure counts for C14 only if the uncut image passes.",
     "at least one byte was cut (always, by construction).", 2, 40)
 
+_E3_GEN = ("rapid draws a workload: 2..8 goroutines x 4..14 (or 5x as many) transactions on 3..6 hot trap-pool keys, scripts "
+           "derived from a drawn seed (Begin/Get/Set/Delete/Commit/Discard or Update/View closures, read-only share, retry on "
+           "conflict), MemtableByteThreshold 50..400, ImmutableBuffer 0..3, L0TargetNum 1..2 so that rotation, flush and "
+           "compaction overlap the foreground continuously. The test binary is built with the race detector "
+           "(halt_on_error); every transaction is recorded with call/return stamps, store reads, writes and outcome. ")
+
+CHECKS["C12"] = dict(
+    level="exploration",
+    engine="conc",
+    technique="randomized concurrent workloads under the Go race detector, with recorded histories decided by porcupine (transactions as operations) and a watchdog",
+    design_ref="DESIGN.md §7 C12",
+    death_is_violation=True,
+    rule=(_E3_GEN + "Judged: no race report and no panic (process death is a violation, the input is the case file written "
+          "before the run), reads of own writes, and the history: split form (reads at Begin, writes at Commit) linearizable "
+          "(C05), committed + read-only transactions serializable in real-time order (C06), no refusal without an overlapping "
+          "committed writer of a read key (C07, one-sided); histories over 130 transactions are only checked for over-aborts "
+          "(counted). Non-trivial: >= 5 rotations and >= 2 flushes happened while >= 2 goroutines committed >= 5 transactions; "
+          "distinct = SHA-256 of the workload JSON."),
+    assumptions=["the race detector and the history oracles see executed schedules only; nothing enumerates interleavings",
+                 "each transaction is used by one goroutine"],
+    level_text="Monitors (race detector, panic, watchdog) plus history oracles over sampled real schedules; the schedule is not owned here.",
+    level_note="trusted: Go race detector, porcupine, the history recording in conc_test.go",
+    quick=[dict(pkg="conc", test="TestC12Conc", race=True, shards=8, checks=10, timeout=600, gomaxprocs=4, parallel=8)],
+    thorough=[dict(pkg="conc", test="TestC12Conc", race=True, shards=16, checks=400, timeout=3000, gomaxprocs=4)],
+)
+
+CHECKS["C15"] = dict(
+    level="exploration",
+    engine="conc",
+    technique="generated gated scenarios (flusher held at a verifhook gate so that the queue fills and a committer parks) and free-running concurrent workloads (no race detector here: C12 has it), watchdog with goroutine-dump deadlock criterion",
+    design_ref="DESIGN.md §7 C15",
+    death_is_violation=True,
+    rule=("gated leg: rapid draws ImmutableBuffer 0..3, MemtableByteThreshold 1..200, 1..3 writers x 3..14 blind multi-key "
+          "commits, 1..4 readers, late writers, a release pattern; the flusher is held at its first gate until the writers "
+          "stall on the full queue (a committer parked in the queue send while holding the write lock), readers (Begin must "
+          "wait for the commit in progress) and late writers are started, the flusher is released step-wise and then for "
+          "good; every call must return; then the flusher is held again, one more memtable is made pending, Close is called "
+          "and the flusher released; after Close returned the directory listing must not change any more, Open must "
+          "succeed at once and every key must read its last acknowledged value. free-running leg: the C12 workloads followed "
+          "by final read, Close, immediate reopen, identical read. A call that has not returned after 30/60 s is a violation "
+          "only if the goroutine dump shows every engine/workload goroutine parked in chan send/receive, select, mutex, "
+          "cond or waitgroup with no timer involved; otherwise the run is inconclusive. Non-trivial (gated): a committer "
+          "was parked on a full (or zero-length) queue while a reader waited in Begin, and Close was called with a flush "
+          "pending when requested."),
+    assumptions=["Close is called once, with no transaction open and no call in flight"],
+    level_text="Deterministically constructed blocking situations (owned flusher) plus sampled free schedules; liveness is decided by a no-runnable-goroutine criterion, not by time.",
+    level_note="trusted: the goroutine-dump parser (deadlocked()), the verifhook gate (steers only)",
+    quick=[dict(pkg="conc", test="TestC15", shards=12, checks=40, timeout=600, gomaxprocs=4),
+           dict(pkg="conc", test="TestC15Conc", shards=8, checks=12, timeout=600, gomaxprocs=4)],
+    thorough=[dict(pkg="conc", test="TestC15", shards=16, checks=1500, timeout=3000, gomaxprocs=4),
+              dict(pkg="conc", test="TestC15Conc", shards=16, checks=400, timeout=3000, gomaxprocs=4)],
+)
+
 ENGINES = [
+    {"name": "conc", "path": "harness/checks/conc", "serves_properties": ["C12", "C15", "C05", "C06", "C07"],
+     "kind_free_text": "real goroutines on one handle in a -race build, free-running flusher, history recording + porcupine, watchdog with goroutine-dump deadlock criterion, gated blocking scenarios"},
     {"name": "crash", "path": "harness/checks/crash (+ harness/cmd/vworker, harness/fsx, drv/fsoverlay.py)", "serves_properties": ["C03", "C04", "C14"],
      "kind_free_text": "crash-point enumeration: child worker under a file-system interposer (os overlay), snapshot image before every fs operation, recovery in fresh processes, ack-log durability oracle, unsynced-tail truncation"},
     {"name": "dbsm", "path": "harness/checks/dbsm", "serves_properties": ["C01", "C02", "C05", "C06", "C07", "C08"],
